@@ -63,6 +63,14 @@ C["C19"] = ("Coq theorems over the functional image of the counter's doubly link
             "subset of halved entries. Tie: operation sequences on the real Counter with the linked structure walked forwards and backwards after every operation vs the extracted model, "
             "the property oracle on every dump, and collector rounds with a scripted minute clock checked against the report properties.",
             "Logarithmic counters are random (report checked against the property, not predicted); the Value() data race with HOTKEY readers is not exercised.", "DESIGN.md §4 C19")
+C["C08"] = ("Coq theorems over a model of the store's three update handlers, the events they emit and the controller's handling of them: for every history in which every delivered "
+            "configuration validates (and static services are declared once, with distinct addresses), after the events are processed exactly the services with a configuration and an "
+            "endpoint list have a processor, carrying the latest configuration and, address by address, the latest endpoint set (invariant by induction over operations); the settled state "
+            "is the same for every interleaving of store updates and controller steps over the FIFO channel; updates for unknown services change and emit nothing; an update for one "
+            "service leaves every other service's entry and processor untouched; the statement without the validity premise is refuted by a witness (known finding). Tie: histories through "
+            "the real store, the real 32-slot channel and a real Controller (started late so the store runs ahead) with a recording processor, vs the extracted model and vs the property "
+            "computed from the history alone.",
+            "Processor creation is assumed to succeed; the discovery client (gRPC) is outside the model; Go-level interleavings are sampled, the schedule theorem covers the FIFO model.", "DESIGN.md §4 C08")
 checks = []
 for pid in sorted(C):
     text, note, ref = C[pid]
